@@ -3380,7 +3380,13 @@ impl SctpInner {
             }
             let flight = self.flight_size.load(Ordering::Relaxed);
             let queued = self.queued_bytes.load(Ordering::Relaxed);
-            if self.max_buffered_amount == 0 || flight + queued <= self.max_buffered_amount {
+            // DCEP OPEN / ACK are sent from the association's own run loop (on COOKIE
+            // ACK, on a peer's OPEN). Waiting for window credit there would wait for
+            // the very loop that grants it; these few bytes are exempt from the limit.
+            if is_dcep
+                || self.max_buffered_amount == 0
+                || flight + queued <= self.max_buffered_amount
+            {
                 break;
             }
             self.flow_control_notify.notified().await;
